@@ -50,4 +50,11 @@ theorem interlock_step (b : B) (op : Op) (h : interlockOp op = true) :
     simp [Flags.safeSeq, Flags.safe, Flags.exec, B.flags, toolStart, coolStart, toolStop, coolStop, needsIdle, ht, hc,
       Code.isToolStart, Code.isCoolStart, Code.isToolStop, Code.isCoolStop, Code.needsIdle]
 
+theorem Flags.safeSeq_append (f : Flags) (xs ys : List Stmt) :
+    f.safeSeq (xs ++ ys) = (f.safeSeq xs && (xs.foldl Flags.exec f).safeSeq ys) := by
+  induction xs generalizing f with
+  | nil => simp [Flags.safeSeq]
+  | cons x xs ih => simp [Flags.safeSeq, ih, Bool.and_assoc]
+
+
 end GscribModel.Builder
